@@ -21,8 +21,8 @@ use std::time::{Duration, Instant};
 
 pub const STACK: usize = 8 << 20;
 
-pub const TEXT_SHAPES: [&str; 10] = [
-    "seq", "expkey", "alt", "mapnl", "seq-then-flow", "seq-dedent", "flowseq", "flowseq-closed", "flowmap", "flowmix",
+pub const TEXT_SHAPES: [&str; 12] = [
+    "seq", "expkey", "alt", "mapnl", "seq-then-flow", "seq-dedent", "seq-badleaf", "expkey-badleaf", "flowseq", "flowseq-closed", "flowmap", "flowmix",
 ];
 /// The pull interface keeps its continuation on the heap, so its stack use must not depend on
 /// the nesting depth at all: these API variants run the same scenario on a *small* stack
@@ -50,7 +50,7 @@ pub fn shape_class(shape: &str) -> &'static str {
         return "bytes";
     }
     match shape {
-        "seq" | "expkey" | "alt" | "mapnl" | "seq-then-flow" | "seq-dedent" => "block",
+        "seq" | "expkey" | "alt" | "mapnl" | "seq-then-flow" | "seq-dedent" | "seq-badleaf" | "expkey-badleaf" => "block",
         "flowseq" | "flowseq-closed" | "flowmap" | "flowmix" => "flow",
         _ => "tree",
     }
@@ -72,7 +72,7 @@ fn rand_nest(seed: u64, d: usize, seq_only: bool) -> String {
         kinds.push(cur);
         s.push_str(if cur { "- " } else { "? " });
     }
-    s.push_str(*r.pick(&["a", "&x a", "[a, b]", "{a: b}", "!!str a", "|\n"]));
+    s.push_str(*r.pick(&["a", "&x a", "[a, b]", "{a: b}", "!!str a", "|\n", "\"unterminated", "@bad", "'open", "[a, b", "!<x"]));
     s.push('\n');
     let lines = 1 + r.usize(4);
     let mut level = d;
@@ -175,6 +175,14 @@ pub fn text_for(shape: &str, d: usize) -> String {
                 s.push(' ');
             }
             s.push_str("v\n");
+        }
+        "seq-badleaf" | "expkey-badleaf" => {
+            // a deep nest whose LEAF is a scanner-level error: the error value itself must not
+            // depend on the depth at which it was raised (returning, printing and dropping it)
+            for _ in 0..d {
+                s.push_str(if shape == "seq-badleaf" { "- " } else { "? " });
+            }
+            s.push_str(["\"unterminated", "@reserved", "'open", "\"bad \\q escape\"", "!<unclosed", "[a, b", "&", "|99"][d % 8]);
         }
         "seq-dedent" => {
             // a deep one-line nest, then a sibling entry deep inside it: one level closes while
